@@ -47,6 +47,8 @@ type callTarget struct {
 	recvT   types.Type
 	name    string
 	sig     *types.Signature
+	self    []string // dynamic call through a value of a named function type: the value
+	selfT   types.Type
 }
 
 func (fr *Frame) resolveCall(c *ssa.CallCommon) callTarget {
@@ -59,6 +61,11 @@ func (fr *Frame) resolveCall(c *ssa.CallCommon) callTarget {
 	}
 	if fn := c.StaticCallee(); fn != nil {
 		return callTarget{fn: fn, name: fn.String(), sig: fn.Signature}
+	}
+	if n, ok := types.Unalias(c.Value.Type()).(*types.Named); ok {
+		if _, isSig := n.Underlying().(*types.Signature); isSig {
+			return callTarget{name: "functype " + typeFullName(n), sig: c.Signature(), self: fr.val(c.Value), selfT: c.Value.Type()}
+		}
 	}
 	return callTarget{name: "dynamic call", sig: c.Signature()}
 }
@@ -136,8 +143,8 @@ func (fr *Frame) callTarget(tgt callTarget, args [][]string, argT []types.Type, 
 		return fr.applyContract(con, tgt, args, argT, resT, st, r, pos)
 	}
 	// inline small same-module functions
-	if tgt.fn != nil && len(tgt.fn.Blocks) > 0 && fr.canInline(tgt.fn) {
-		return fr.inline(tgt, args, resT, st, r, pos)
+	if tgt.fn != nil && len(tgt.fn.Blocks) > 0 && (fr.canInline(tgt.fn) || (con != nil && con.Inline && fr.depth < 4)) {
+		return fr.inline(tgt, args, resT, st, r, pos, con)
 	}
 	// unknown callee
 	res := fr.freshVal("call", resT)
@@ -230,11 +237,15 @@ func (fr *Frame) canInline(fn *ssa.Function) bool {
 	return n <= 250
 }
 
-func (fr *Frame) inline(tgt callTarget, args [][]string, resT types.Type, st *State, r string, pos token.Pos) []string {
+func (fr *Frame) inline(tgt callTarget, args [][]string, resT types.Type, st *State, r string, pos token.Pos, con *Contract) []string {
 	vc := fr.vc
 	sub := &Frame{vc: vc, eng: fr.eng, fn: tgt.fn, depth: fr.depth + 1, parent: fr, regs: map[ssa.Value][]string{}, clos: map[ssa.Value]*closureInfo{},
 		safety: fr.safety, safetyProps: fr.safetyProps, mode: fr.mode,
 		suffix: fr.suffix + "@" + shortFuncName(tgt.fn)}
+	if con != nil && con.Inline {
+		// an `inline` contract carries the loop invariants (and loop lemmas) of the inlined body
+		sub.con = con
+	}
 	sub.entry = st.clone()
 	sub.params = args
 	for i, p := range tgt.fn.Params {
@@ -334,6 +345,12 @@ func (fr *Frame) contractEnv(con *Contract, tgt callTarget, args [][]string, arg
 		}
 	} else if tgt.method != nil {
 		env.pkg = tgt.method.Pkg()
+	}
+	if tgt.self != nil {
+		env.vars["self"] = tval{T: tgt.selfT, C: tgt.self}
+		if n, ok := types.Unalias(tgt.selfT).(*types.Named); ok && n.Obj().Pkg() != nil {
+			env.pkg = n.Obj().Pkg()
+		}
 	}
 	names, ts := targetParams(tgt)
 	for i, n := range names {
